@@ -9,7 +9,7 @@ Definition ex_n0 : hnode :=
      nLS := Some (0%Z, 2%Z); nH := None; ndyn := None |}.
 Definition ex_n1 : hnode :=
   {| nJ := 0; nM := 0; na_s := 0; na_l := 0; nb_s := 0; nb_l := 0; nphi := "phi_1^12"; ntheta := "theta_1^12";
-     nLS := Some (0%Z, 0%Z); nH := None; ndyn := Some "BW_f0" |}.
+     nLS := Some (0%Z, 0%Z); nH := None; ndyn := Some (Sym "BW_f0") |}.
 Definition ex_chain : hchain := {| cC := Some "C_f0"; cpref := Some (-1 # 1); cnodes := [ex_n0; ex_n1] |}.
 Definition ex_model : list hgroup := [[[ex_chain; ex_chain]]; [[ex_chain]]].
 
